@@ -34,7 +34,8 @@ def parse(paths):
             if not acc: recs.append({'kind': kind, 'key': (kind, 'unparsed'), 'text': rep[:400]}); continue
             addr = acc[0][2]; size = acc[0][1]
             if loc and loc[0] == 'heap': key = ('heap', first_lib_frame(loc[3]), loc[1], addr - loc[2], size)
-            elif loc: key = loc
+            elif loc and loc[1] != '<null>': key = loc
+            elif loc: key = ('static', acc[0][3][0][0] if acc[0][3] else '?') + tuple(sorted(set(first_lib_frame(a[3]) for a in acc)))      # unnamed static storage (e.g. a libc-internal buffer): interceptor + library callers
             else: key = ('noloc', tuple(sorted(first_lib_frame(a[3]) for a in acc)))
             recs.append({'kind': kind, 'key': key, 'pair': tuple(sorted(first_lib_frame(a[3]) for a in acc[:2])), 'in_lib': any('src/lib/' in s for a in acc for _, s in a[3][:3]), 'text': rep[:3500]})
     return recs
